@@ -223,6 +223,45 @@ def other_directory_cases(binfo, scratch):
     return out
 
 
+def explicit_name_cases(binfo, scratch):
+    """No injected fault, an independent expectation: one output kind gets an explicit name
+    (-F<kind>=<name>) while all nine kinds are requested; on exit 0 the named file holds what
+    the default-named file of that kind holds in the reference run and every other output is
+    the same as there.  Same result shape as other_directory_cases."""
+    out = []
+    classes = list(ALL)
+    w = scratch.new()
+    ref = worlds.compile_world(binfo, w, {"x.as": worlds.HELLO}, flags(classes), ["x.as"], cpu=60)
+    vsim.cleanup_world(w)
+    if ref.rc != 0:
+        return [("reference-failed", (ref.out + ref.err)[-200:].decode("latin-1", "replace"), "aldor %s x.as" % " ".join(flags(classes)), "name-ref")]
+    for k in ("ai", "ap", "asy", "ao", "fm", "lsp", "c"):
+        alt = "alt" + EXT[k]
+        fl = [("-F%s=%s" % (k, alt)) if c == k else worlds.OUT_FLAG[c] for c in classes]
+        w = scratch.new()
+        r = worlds.compile_world(binfo, w, {"x.as": worlds.HELLO}, fl, ["x.as"], cpu=60)
+        vsim.cleanup_world(w)
+        desc = "aldor %s x.as" % " ".join(fl)
+        verdict, detail = None, ""
+        fc = worlds.fault_class(r)
+        if fc:
+            verdict, detail = fc, (r.out + r.err)[-200:].decode("latin-1", "replace")
+        elif r.rc == 0:
+            bad = []
+            for rel, data in ref.files.items():
+                want = alt if rel == "x" + EXT[k] else rel
+                if want not in r.files:
+                    bad.append(want + " not written")
+                elif r.files[want] != data:
+                    bad.append(want + " differs from the reference " + rel)
+            if bad:
+                verdict, detail = "exit0-missing-output", "exit 0 but " + ", ".join(bad)
+        elif not worlds.has_diag(r):
+            verdict, detail = "silent-refusal", "exit %r without a diagnostic" % r.rc
+        out.append((verdict, detail, desc, "name-" + k))
+    return out
+
+
 def vkey(verdict, plan, detail):
     kinds = "+".join(sorted(set(ev["k"] for ev in plan)))
     cls = "+".join(sorted(set(ev.get("c", "dir") for ev in plan)))
@@ -239,7 +278,7 @@ def main(argv):
 
     with vsim.Scratch("c18") as scratch:
         if replay and "other_directory" in json.load(open(replay)):
-            od = [x for x in other_directory_cases(binfo, scratch) if x[3] == json.load(open(replay))["other_directory"]]
+            od = [x for x in other_directory_cases(binfo, scratch) + explicit_name_cases(binfo, scratch) if x[3] == json.load(open(replay))["other_directory"]]
             vsim.say("replay: %s" % [(v, d) for v, d, _, _ in od])
             if any(v for v, _, _, _ in od):
                 vsim.say("VIOLATION property=%s replay=%s" % (PID, replay))
@@ -392,11 +431,11 @@ def main(argv):
             out.violations.append({"key": key, "cls": v2, "detail": d2, "replay": rp})
 
         # ---- saved forms in another directory (independent expectation, no fault) -----------
-        od = other_directory_cases(binfo, scratch)
+        od = other_directory_cases(binfo, scratch) + explicit_name_cases(binfo, scratch)
         for verdict, detail, desc, kind in od:
             if not verdict:
                 continue
-            key = "%s:other-directory-input:%s" % (verdict, kind)
+            key = "%s:%s:%s" % (verdict, "explicit-name" if kind.startswith("name-") else "other-directory-input", kind)
             text = out.classify(key)
             if text is not None:
                 out.known.append({"key": key, "text": text})
